@@ -997,7 +997,7 @@ func main() {
 	var x4, x6 []vh.Case
 	d4, d6, n4, n6, maxOps := 3, 3, 400, 300, 40
 	if cfg.Thorough() {
-		d4, d6, n4, n6, maxOps = 4, 4, 3000, 2500, 60
+		d4, d6, n4, n6, maxOps = 4, 4, 1500, 1200, 60
 	}
 	p4, p6 := pools4(), pools6()
 	add4 := func(c Case4) { x4 = append(x4, run4(c)) }
